@@ -194,7 +194,10 @@ func c15Run(c c15Case, o *hx.Obs) {
 		return
 	}
 	// qualification at the top level of the data tree
-	if obj, isObj := dec.(map[string]interface{}); isObj && startKind == "root" {
+	if obj, isObj := dec.(map[string]interface{}); isObj && (startKind == "root" || (startKind == "leaf" && len(c.Start) == 0)) {
+		if startKind == "leaf" {
+			o.Class("written from a top-level leaf")
+		}
 		for k := range obj {
 			q := strings.Contains(k, ":")
 			if q != c.Qual {
